@@ -465,7 +465,7 @@ func modelOf(dir string, w *World, r *OblResult) []string {
 		if strings.HasPrefix(l, "(declare-fun ") || strings.HasPrefix(l, "(define-fun ") {
 			f := strings.Fields(l)
 			n := f[1]
-			if strings.HasPrefix(n, "p.") || strings.HasPrefix(n, "v.") || strings.HasPrefix(n, "fv.") || strings.HasPrefix(n, "ret.") || strings.HasPrefix(n, "next.") {
+			if strings.HasPrefix(n, "p.") || strings.HasPrefix(n, "v.") || strings.HasPrefix(n, "fv.") || strings.HasPrefix(n, "ret.") || strings.HasPrefix(n, "next.") || strings.HasPrefix(n, "GH.") || strings.HasPrefix(n, "ghost.") {
 				if strings.Contains(l, "(Array") {
 					continue
 				}
